@@ -81,6 +81,11 @@ CHECKS = {
          "Stratification and (0,m,2)-net: finite domain enumerated completely in both tiers; batch/single/prefix agreement on 4,300+ windows (all [s,s+k] with s<=64,k<=64; +-2 around every power of two to 2^20; 10^6) x dims {1,2,3,10,100,1000} (Sobol, bit-exact) and 14 (thorough 64) Korobov dimensions; front-end dispatch; determinism of repeated calls; direct non-recurrent evaluation from hard-coded Joe-Kuo rows for dims 1..13 x 4096 seeds.",
          "Compiled kernels exercised as built (no Cython offline); the batch/single half is an exhaustive window family under a work budget, not all (s,k) up to 10^6.",
          "2/C20"),
+ "C07": ("exploration",
+         "complete enumeration of the transform's basis (every (l,m) channel, both phases, both layouts) for every L up to a bound and boundary channels for all L in 0..64, against scipy's spherical harmonics; linearity lifts basis coverage to all coefficient vectors",
+         "Configurations: every L in 0..64 (each selects its own grid). Inputs: for L <= 16 (thorough 32) every unit vector e_(l,m) and i*e_(l,m) of the complex and real layouts through analysis and synthesis, completion and complex-vs-real agreement; above that the channels l in {0,1,L/2,L-1,L} x m in {-l,-1,0,1,l} and two dense vectors; pure-Python paths and point-wise evaluation on every basis vector for L <= 8 (12); linearity, Parseval by an independent quadrature, power spectrum; grid-size facts.",
+         "Tolerance 1e-10*(L+1); scipy.special.sph_harm_y is the trusted definition of the orthonormal Condon-Shortley harmonics; compiled kernels exercised as built.",
+         "2/C07"),
 }
 
 ALL = ["C%02d" % i for i in range(1, 21)]
